@@ -308,6 +308,16 @@ func levelA(r *ev.Run, e *etcdx.Etcd, rng *rand.Rand, wi int, fpLive bool) {
 	}
 	w.Lease = 1
 	defer w.Close()
+	// one world in three lives on a populated root (a realistic number of unrelated keys around the window key)
+	if wi%3 == 1 {
+		n := 1001 + rng.Intn(1800)
+		if err := w.Populate(n); err != nil {
+			r.Inconclusive("populate: %v", err)
+			return
+		}
+		r.Count("worlds_on_populated_root", 1)
+		r.Count("populated_keys", int64(n))
+	}
 	x := &worldRun{r: r, w: w, rng: rng, lost: map[int]int64{}, fpLive: fpLive}
 	m := w.Members[0]
 	if err := m.Campaign(true); err != nil {
